@@ -115,6 +115,9 @@ def _mk_harness(name, module, file, prop, unwind, ann):
             h.tier = v
         elif k == "timeout":
             h.timeout = int(v)
+            cap = os.environ.get("VERIF_TIMEOUT_CAP")      # measurement aid: cap every harness timeout
+            if cap:
+                h.timeout = min(h.timeout, int(cap))
         elif k == "mem":
             h.mem = int(v)
         elif k == "features":
